@@ -17,7 +17,7 @@ class P(MetProp):
     rule = ("two vectors l = sum by (L1) (count_over_time({side=\"l\"}..)) and r = sum by (L2) (count_over_time({side=\"r\"}..)) over records whose label sets overlap, are disjoint "
             "or empty on either side and change from step to step; all 12 arithmetic/comparison operators (with and without `bool`) and and/or/unless between them; vector-scalar "
             "with the scalar on either side, scalars {0, 2, 0.5, 3, -2, -0.5} and vector(x) against scalars with inexact reciprocals {10, 3, 7, 0.1, -10, 0.3, 0.001}; vector(c) against aggregations with empty and non-empty label sets (incl. `... or vector(0)`); offset "
-            "operands; instant and multi-step range evaluation. Demanded on the OBSERVED results at every step: the result is the operator applied pointwise to the observed operand "
+            "operands; a parenthesised operation as the right operand of an operator of the same precedence class (x - (y + z), x / (y * z), x unless (y unless z)); instant and multi-step range evaluation. Demanded on the OBSERVED results at every step: the result is the operator applied pointwise to the observed operand "
             "vectors, one series per label set present on both sides (left labels), x/0 and x%0 NaN, comparison 1 exactly where it holds; and/or/unless are intersection / union "
             "(left wins) / difference by label set; everything equals the faithful model.")
 
@@ -56,12 +56,26 @@ class P(MetProp):
             else:
                 evals.append({"q": b64e(q), "qcoq": e["coq"], "start": start, "end": end, "step": step})
             return len(evals) - 1
-        kind = rng.choice(["vv", "vv", "vv", "lit", "lit", "lit", "litbool", "set", "set", "set", "vector", "vector", "vlit", "vlit"])
+        kind = rng.choice(["vv", "vv", "vv", "lit", "lit", "lit", "litbool", "set", "set", "set", "vector", "vector", "vlit", "vlit", "nested", "nested"])
         by = rng.choice([["app"], ["app"], [], ["nosuch"]]) if not dense else ["app"]
         L = side("l", by, rng.choice([0, 0, 0, S]))
         R = side("r", by if rng.random() < 0.8 else ["app"])
         il, ir = add(L), add(R)
-        if kind == "vv":
+        if kind == "nested":
+            # a parenthesised operation as the RIGHT operand of an operator of the same precedence class: x - (y + z), x / (y * z),
+            # x % (y % z), x > (y > z), x unless (y unless z): the parentheses decide, at evaluation too
+            op1, op2 = rng.choice([("-", "+"), ("-", "-"), ("/", "*"), ("/", "/"), ("%", "%"), ("*", "/"), (">", ">"), ("==", "!="), ("unless", "unless"), ("and", "unless"), ("-", "*"), ("^", "^")])
+            Y = side("r", ["app"]) if rng.random() < 0.5 else m.mvector(rng.choice([2, 3, 5]))
+            Z = m.mvector(rng.choice([2, 3, 7])) if Y["k"] != "vector" or rng.random() < 0.5 else side("l", ["app"], 0)
+            X = L if rng.random() < 0.6 else m.mvector(rng.choice([10, 16, 17, 100]))
+            ix, iy, iz = add(X), add(Y), add(Z)
+            inner = m.mbin(op2, Y, Z)
+            ii = add(inner)
+            e = m.mbin(op1, X, inner)
+            rel = lambda a, b2, c, o: ("MRelSet %d %d %d %s" % (a, b2, c, BOP[o])) if o in SETOPS + ["or"] else ("MRelBin %d %d %d %s false" % (a, b2, c, BOP[o]))
+            rels.append(rel(iy, iz, ii, op2))
+            rels.append(rel(ix, ii, add(e), op1))
+        elif kind == "vv":
             op = rng.choice(ARITH + CMP)
             rb = op in CMP and rng.random() < 0.4
             e = m.mbin(op, L, R, rb)
